@@ -627,6 +627,21 @@ def _limits_stored(prog):
     request to the parameter it names, with the values given."""
     out = []
     pc = prog.cls("Parameter")
+    # the limits are what set_boundaries stored: no other method of the class (the non-negativity switch, a proposal) writes them
+    writers = []
+    for mname_, fn_ in pc.methods.items():
+        if mname_.split(".")[0] in ("__init__", "set_boundaries", "load", "remove_boundaries"):
+            continue
+        for st_ in ast.walk(fn_):
+            tg_ = st_.targets if isinstance(st_, ast.Assign) else [st_.target] if isinstance(st_, (ast.AugAssign, ast.AnnAssign)) else []
+            for t_ in tg_:
+                for el_ in (t_.elts if isinstance(t_, ast.Tuple) else [t_]):
+                    if isinstance(el_, ast.Attribute) and isinstance(el_.value, ast.Name) and el_.attr in ("lower", "upper", "width") \
+                            and fn_.args.args and el_.value.id == fn_.args.args[0].arg:
+                        writers.append(f"{mname_} line {st_.lineno}: `{U(st_)[:70]}`")
+    out.append(struct_ob("limits-stored", f"{pc.module.name}.Parameter[only-set_boundaries-writes-limits]", not writers,
+                         "the limits in force are changed outside set_boundaries: " + "; ".join(writers[:2])
+                         + " - a later switch of another limit leaves them at values the caller never set", pc.module.relpath, pc.node.lineno, tier="F"))
     sb = pc.methods["set_boundaries"]
     lo, up = sb.args.args[1].arg, sb.args.args[2].arg
     rz = Resolver(sb, prog, pc.module, pc)
